@@ -523,6 +523,7 @@ func c05Worker(e *fw.Env, from int64, outPath, progPath string) {
 	var curStartCPU atomic.Uint64 // micro-seconds
 	var curStartWall atomic.Int64
 	curIdx.Store(-1)
+	var curPixels atomic.Uint64 // pixels the input declares (lenient header reading)
 	// watchdog: CPU blow-up or deadlock on one input
 	var curID atomic.Value
 	var curData atomic.Value
@@ -537,9 +538,12 @@ func c05Worker(e *fw.Env, from int64, outPath, progPath string) {
 			cpu := cpuSeconds() - float64(curStartCPU.Load())/1e6
 			wall := time.Since(time.Unix(0, curStartWall.Load())).Seconds()
 			var why string
-			if cpu > 60 {
+			// the property allows time proportional to the declared picture/canvas size: the cap is
+			// 60 s plus 4 us per declared pixel (every entry point, twice, incl. page-fault cost
+			// when 16 workers run side by side: measured 10 s alone, 65 s under load for 67 Mpx)
+			if cpu > 60+4e-6*float64(curPixels.Load()) {
 				why = fmt.Sprintf("more than %.0f CPU-seconds on one input (hang or blow-up)", cpu)
-			} else if wall > 180 && cpu < 2 {
+			} else if wall > 600 && cpu < 2 {
 				why = fmt.Sprintf("no progress for %.0f s with %.1f CPU-seconds used (deadlock)", wall, cpu)
 			}
 			if why != "" {
@@ -575,6 +579,7 @@ func c05Worker(e *fw.Env, from int64, outPath, progPath string) {
 		}
 		curID.Store(in.ID)
 		curData.Store(in.Data)
+		curPixels.Store(sum)
 		curStartCPU.Store(uint64(cpuSeconds() * 1e6))
 		curStartWall.Store(time.Now().UnixNano())
 		curIdx.Store(k)
@@ -640,7 +645,7 @@ func init() {
 	fw.Register(&fw.Check{
 		ID: "C05", Level: "fault_enumeration", Shards: shards16,
 		Rule:   "seed files (still corpus of C17 + animated corpus + ~60 generator-made VP8L files that no encoder emits: every backward-reference program, cache, meta-prefix and code-shape variant on narrow and wide pictures) x {every prefix; every byte position x 9-value boundary alphabet; every recognised little-endian size/dimension field x 15-value boundary alphabet; every chunk deleted / duplicated / swapped / re-tagged with each known FourCC; all pairs of deviations {0x00,0xff,b^1} inside the header region of one file per layout class} plus RIFF/chunk skeleton strings over the size alphabet; each input runs Decode, DecodeConfig, GetFeatures, image.Decode, the demuxer with all accessors, animation.DecodeBytes + DecodeFrames / DecodeFramesParallel + AnimDecoder to exhaustion twice; oracle: no panic, no process death, CPU cap, TotalAlloc bound from length + declared pixels, well-formed results; distinct = distinct input id",
-		Assume: []string{"inputs whose headers declare more than 2^22 (thorough 2^26) pixels within the documented caps are skipped (legitimately expensive) and counted", "allocation is measured as runtime TotalAlloc delta, CPU as process CPU time; no wall-clock oracle except a 180 s zero-CPU deadlock verdict", "worker count 2 at every site, pools reuse most-recent"},
+		Assume: []string{"inputs whose headers declare more than 2^22 (thorough 2^26) pixels within the documented caps are skipped (legitimately expensive) and counted", "allocation is measured as runtime TotalAlloc delta, CPU as process CPU time; CPU cap per input = 60 s + 4 us per declared pixel; no wall-clock oracle except a 600 s zero-CPU deadlock verdict", "worker count 2 at every site, pools reuse most-recent"},
 		Run: func(e *fw.Env, r *fw.Result) {
 			if len(e.Args) >= 1 && e.Args[0] == "worker" {
 				var from int64
